@@ -657,7 +657,9 @@ func (idx *indexer) indexSince(txID uint64) error {
 			indexableEntries++
 			txIndexedEntries++
 
-			if idx.spec.InjectiveMapping && txID > 1 {
+			currTxID := txID + uint64(i)
+
+			if idx.spec.InjectiveMapping && currTxID > 1 {
 				// wait for source indexer to be up to date
 				sourceIndexer, err := idx.store.getIndexerFor(sourceKey)
 				if errors.Is(err, ErrIndexNotFound) {
@@ -666,13 +668,21 @@ func (idx *indexer) indexSince(txID uint64) error {
 					return err
 				}
 
-				err = sourceIndexer.WaitForIndexingUpto(context.Background(), txID-1)
+				// the previous entry is the one preceding the transaction being indexed,
+				// which may belong to the current bulk
+				prevUpToTxID := currTxID - 1
+				if sourceIndexer == idx {
+					// transactions of the current bulk are not yet searchable in this index
+					prevUpToTxID = txID - 1
+				}
+
+				err = sourceIndexer.WaitForIndexingUpto(context.Background(), prevUpToTxID)
 				if err != nil {
 					return err
 				}
 
-				// the previous entry as of txID must be deleted from the target index
-				_, prevTxID, _, err := sourceIndexer.index.GetBetween(sourceKey, 1, txID-1)
+				// the previous entry as of currTxID must be deleted from the target index
+				_, prevTxID, _, err := sourceIndexer.index.GetBetween(sourceKey, 1, prevUpToTxID)
 				if err == nil {
 					prevEntry, prevTxHdr, err := idx.store.ReadTxEntry(prevTxID, e.key(), false)
 					if err != nil {
